@@ -203,6 +203,19 @@ pub fn run(reg: &[Box<dyn TypeOps>], cfg: &Cfg, out: &mut dyn Write) {
                     out.flush().unwrap();
                     let (_, r) = observe(t.as_ref(), &mut ar, &mut ar2, &m, place, false, None);
                     writeln!(out, "{}", r).unwrap();
+                    // the same corrupted image followed by a few bytes that do not make up another alignment unit (S108): a slice whose
+                    // length is no multiple of `ALIGN` — a receive buffer filled to a transport-dictated length — must report the same byte
+                    if al > 1 {
+                        let mut m2 = m.clone();
+                        let extra_n = 1 + rng.below(al as u64 - 1) as usize;
+                        m2.extend(rng.bytes(extra_n));
+                        let place = Place::Mid(0);
+                        let a16 = (ar.addr_mod(0, 16) + 256) % 16;
+                        write!(out, "C {} {} {} {} {} {} {} => ", tid, place_char(place), a16, kind, lo, hi, hex(&m2)).unwrap();
+                        out.flush().unwrap();
+                        let (_, r) = observe(t.as_ref(), &mut ar, &mut ar2, &m2, place, false, None);
+                        writeln!(out, "{}", r).unwrap();
+                    }
                 }
             }
             // P: a few explicit prefixes
